@@ -78,6 +78,10 @@ OpOfEvent ==
 Other(kind) == IF kind = "pq" THEN "dpq" ELSE "pq"
 ConOp(s, kind) == Apply(IF e.op = "convert" THEN Other(kind) ELSE kind, s, OpOfEvent, Inf)
 ConNew(kind) == Apply(kind, Empty, OpOfEvent, Inf)
+\* the twin is only run from a well-formed previous store (the operators are total on the stores the crash
+\* model can produce, not on arbitrary corrupted ones)
+TablesOK(s) == /\ Len(s.heap) = s.size /\ Len(s.qp) = s.size /\ Len(s.keys) = Len(s.pri) /\ Len(s.keys) <= s.size
+               /\ \A p \in 1..s.size : s.heap[p] \in 0..(s.size-1) /\ s.qp[s.heap[p]+1] = p-1
 Drift(r) == IF NoDrift \/ e.hs = 0 THEN TRUE
             ELSE IF r.out # "ok" THEN PrintT(<<"DRIFT", l, e.op, "model_" \o r.out>>)
             ELSE IF r.st # SnapCon(e.snap) THEN PrintT(<<"DRIFT", l, e.op, "state">>)
@@ -113,7 +117,7 @@ StepTainted ==
          gone == e.op \in {"drop", "forget_queue"} \/ e.kind = "none"
          prev == IF e.op = "clone" /\ e.src \in DOMAIN con THEN con[e.src] ELSE IF q \in DOMAIN con THEN con[q] ELSE Empty
          r == Apply(IF e.op = "convert" THEN Other(e.kind) ELSE e.kind, prev, OpOfEvent, FuelOfFault)
-         cmp == e.hs = 1 /\ ~NoDrift /\ e.op \in Modelled /\ e.op \notin {"from_vec", "from_iter", "de", "roundtrip"}
+         cmp == e.hs = 1 /\ ~NoDrift /\ TablesOK(prev) /\ e.op \in Modelled /\ e.op \notin {"from_vec", "from_iter", "de", "roundtrip"}
                 /\ (Injected => ModelledFault) IN
      /\ (IF ~cmp THEN TRUE
          ELSE IF r.out = "ub" THEN PrintT(<<"DRIFT", l, e.op, "model_ub_not_observed">>)
@@ -151,7 +155,7 @@ StepCreate ==
                                [] e.op = "roundtrip" -> T(res = abs[e.src], "de_roundtrip")))
      IN /\ Report(tags, e.kind)
         /\ (IF ok /\ e.op \in {"from_vec", "from_iter", "de"} THEN Drift(ConNew(e.kind))
-            ELSE IF ok /\ e.op = "roundtrip" THEN Drift(Apply(e.kind, con[e.src], [op |-> "roundtrip"], Inf)) ELSE TRUE)
+            ELSE IF ok /\ e.op = "roundtrip" /\ WF(con[e.src]) THEN Drift(Apply(e.kind, con[e.src], [op |-> "roundtrip"], Inf)) ELSE TRUE)
         /\ taint' = taint
         /\ IF ok THEN /\ abs' = Upd(abs, q, res) /\ con' = Upd(con, q, ConOrElse(Empty)) /\ ord' = Upd(ord, q, TRUE)
            ELSE /\ abs' = Del(abs, q) /\ con' = Del(con, q) /\ ord' = Del(ord, q)
@@ -253,7 +257,7 @@ StepOp ==
          cf == IF e.panic = 0 /\ e.hs = 1 /\ ~Within(e.kind, e.op, nmax, e.cmps) THEN {"cost"} ELSE {}
          tags == IF e.panic = 1 THEN j.f \cup (sf \cap {"wf"}) ELSE Relax(j.f, q) \cup sf \cup cf
      IN /\ Report(tags, e.kind)
-        /\ (IF e.panic = 0 THEN Drift(ConOp(con[q], e.kind)) ELSE TRUE)
+        /\ (IF e.panic = 0 /\ WF(con[q]) THEN Drift(ConOp(con[q], e.kind)) ELSE TRUE)
         /\ Adopt(q, tags, j.n)
         /\ ord' = Upd(ord, q, ordered) /\ taint' = taint
 
